@@ -88,7 +88,7 @@ func scribble(c crossing, pattern int) string {
 	switch c.kind {
 	case "ints":
 		s := c.ref.([]int)
-		g := []int{-7, 1 << 40, 0, -1}
+		g := []int{-7, 5, 0, -1, 7} // wrong but small: a huge size would make a retaining library allocate until the process dies
 		for i := range s {
 			s[i] = g[(i+pattern)%len(g)]
 		}
@@ -99,7 +99,7 @@ func scribble(c crossing, pattern int) string {
 			if (i+pattern)%2 == 0 {
 				s[i] = tensor.Range{From: 9, To: -3}
 			} else {
-				s[i] = tensor.Range{From: -1, To: 1 << 30}
+				s[i] = tensor.Range{From: -1, To: 6}
 			}
 		}
 		return "ranges"
